@@ -629,6 +629,10 @@ class _Interpolator(object):
         # iterate through dimensions
         for xi, cvec in zip(x, self.coord_vecs):
             try:
+                if not np.issubdtype(self.values.dtype, np.number):
+                    # Points cannot take a non-numeric dtype, even if NumPy
+                    # considers the cast safe (e.g., float -> long string)
+                    raise TypeError
                 xi = np.asarray(xi).astype(self.values.dtype, casting='safe')
             except TypeError:
                 warn("Unable to infer accurate dtype for"
